@@ -143,8 +143,15 @@ class PanelCtx:
             lam.calc_equivalent_modulus = lambda: None
             self.lam_for[id(stack)] = lam
             self._keep = getattr(self, '_keep', []) + [stack]
+        # like the real read_stack, every call returns a NEW laminate object (in-place edits by the caller must not accumulate)
+        out = FakeLam()
+        for k, v in lam.__dict__.items():
+            setattr(out, k, v.copy() if isinstance(v, np.ndarray) else v)
+        if hasattr(out, 'ABD'):
+            out.A, out.B, out.D = out.ABD[0:3, 0:3], out.ABD[0:3, 3:6], out.ABD[3:6, 3:6]
+        out.offset_passed = offset
         lam.offset_passed = offset
-        return lam
+        return out
 
     def shadow(self, extra_stubs=None, policy=None):
         stubs = {'deg2rad': self.deg2rad, 'compmech.composite.laminate.read_stack': self.read_stack_stub}
